@@ -11,10 +11,18 @@ import Distill.Gen.Tables
 import Distill.Gen.Funcs
 namespace Distill
 
+/-- the kinds of element an embed extractor can produce -/
+inductive EmbedKind where
+  | image | figure | embed
+deriving DecidableEq, Repr, Inhabited
+
+def EmbedKind.toKind : EmbedKind → MKind
+  | .image => .image | .figure => .figure | .embed => .embed
+
 /-- answer of the embed extractors for an element (first extractor that accepts) -/
 inductive EmbedRes where
   | none
-  | some (kind : Kind)          -- image / figure / embed
+  | some (kind : EmbedKind)
 deriving DecidableEq, Repr, Inhabited
 
 structure CAtoms where
@@ -176,7 +184,7 @@ def visitElem (cfg : CCfg) (A : CAtoms) (anc : List String) (hasParent : Bool)
   if gateSkip cfg A anc id tag attrs kids then .skip
   else
     match (if embedTag tag then A.embed id else .none) with
-    | .some k => .emit [.addEmbed k id]
+    | .some k => .emit [.addEmbed k.toKind id]
     | .none => withTags tag (tagSwitch A anc hasParent id tag attrs kids)
 
 /-- the element visitor's signature: ancestors' tags, has-parent, id, tag, attributes, children -/
